@@ -45,7 +45,7 @@ def module_sets(tier, seed):
     tests = sorted(glob.glob(os.path.join(build.REPO, "tests/tests-asn1c-compiler/*-OK.asn1")))
     tests = ["repo:" + os.path.relpath(t, build.REPO) for t in tests]
     sets = []
-    for m in ("Sim1", "Sim2", "Sim3", "Sim4", "Sim5", "Sim6", "Sim7"): sets.append(["verif:corpus/%s.asn1" % m])
+    for m in ("Sim1", "Sim2", "Sim3", "Sim4", "Sim5", "Sim6", "Sim7", "Sim8"): sets.append(["verif:corpus/%s.asn1" % m])
     # seeded generated modules (tools/gen_module.py): the same-code clause of the property quantifies over these
     for k in range(6 if tier == "quick" else 40):
         g = "gen:Gen%d" % ((seed % 4096) * 64 + k + 1)
